@@ -154,6 +154,35 @@ EXPECTED_REFUTED = {
 }
 
 
+def ok_join_args(cmd, args):
+    """str.join over a concatenation with a sequence of symbolic length (shell command lines)"""
+    return ' '.join([cmd] + args)
+
+
+M.contract(P + ':ok_join_args', params=dict(cmd=Str, args=ListOf(Str)), returns=Str,
+           ensures={'no-args: the command itself': lambda cmd, args, result: implies(len(args) == 0, result == cmd),
+                    'one-arg: separated by one space': lambda cmd, args, result:
+                    (not len(args) == 1) or result == cmd + ' ' + args[0],
+                    'starts-with-the-command': lambda cmd, result: result.startswith(cmd),
+                    'same-expression-same-value': lambda cmd, args, result: result == ' '.join([cmd] + list(args))},
+           raises_only=())
+
+
+def ok_copy_append(xs, x):
+    """list(xs) is a new list: appending to it leaves xs alone (stdin parts + act stdin)"""
+    ys = list(xs)
+    before = tuple(ys)
+    ys.append(x)
+    return ys, before
+
+
+M.contract(P + ':ok_copy_append', params=dict(xs=ListOf(Int), x=Int), ghosts=dict(j=Int),
+           ensures={'appended-last': lambda xs, x, result: len(result[0]) == len(xs) + 1 and result[0][len(xs)] == x,
+                    'prefix-kept': lambda xs, result, j: (not (0 <= j < len(xs))) or result[0][j] == xs[j],
+                    'snapshot-unchanged': lambda xs, result: len(result[1]) == len(xs)},
+           raises_only=())
+
+
 def ok_numbered(lines):
     n = 0
     for line in lines:
@@ -220,7 +249,7 @@ def ok_out_param(xs, acc):
 
 
 M.contract(P + ':ok_out_param', params=dict(xs=ListOf(Int), acc=MListOf(FixedList(Int, Int, as_tuple=True))),
-           old=lambda acc: len(acc), returns=Int,
+           old=lambda acc: len(acc), returns=Int, modifies=('acc',),
            ensures={'appended': lambda xs, acc, old, result: result == old + len(xs) and len(acc) == result
                     and forall_range(0, len(xs), lambda k: acc[old + k][1] == xs[k] + 1)},
            raises_only=())
@@ -228,3 +257,35 @@ M.loop(P + ':ok_out_param', 0,
        invariant=lambda _i, xs, acc, old: len(acc) == old + _i and forall_range(
            0, _i, lambda k: acc[old + k][1] == xs[k] + 1),
        modifies=dict(acc=MListOf(FixedList(Int, Int, as_tuple=True)), x='local'))
+
+
+def ok_int_round_trip(n):
+    """exit codes are stored as text and read back (also negative ones: killed by a signal)"""
+    return int(str(n))
+
+
+M.contract(P + ':ok_int_round_trip', params=dict(n=Int), returns=Int,
+           ensures={'int(str(n)) == n': lambda n, result: result == n}, raises_only=())
+
+
+def ok_build_argv(interpreter_args, source_file, args):
+    """argv built with `+=` / append on a fresh list (file interpreter actor)"""
+    arguments = []
+    arguments += interpreter_args
+    arguments.append(source_file)
+    arguments += args
+    return arguments
+
+
+M.contract(P + ':ok_build_argv', params=dict(interpreter_args=ListOf(Str), source_file=Str, args=ListOf(Str)),
+           ghosts=dict(j=Int),
+           ensures={'length': lambda interpreter_args, args, result: len(result) == len(interpreter_args) + 1 + len(args),
+                    'interpreter-args-first': lambda interpreter_args, result, j:
+                    (not (0 <= j < len(interpreter_args))) or result[j] == interpreter_args[j],
+                    'then-the-source-file': lambda interpreter_args, source_file, result:
+                    result[len(interpreter_args)] == source_file,
+                    'then-the-arguments': lambda interpreter_args, args, result, j:
+                    (not (0 <= j < len(args))) or result[len(interpreter_args) + 1 + j] == args[j],
+                    'inputs-unchanged': lambda interpreter_args, args, old: (len(interpreter_args), len(args)) == old},
+           old=lambda interpreter_args, args: (len(interpreter_args), len(args)),
+           raises_only=())
